@@ -124,6 +124,125 @@ func constBig(info *types.Info, e ast.Expr) (*big.Int, bool) {
 	return nil, false
 }
 
+// helperResultValues: id is a local bound (once) to result ri of a call `a, b := h(args)` of a module helper. The
+// helper is evaluated by the term interpreter for every combination of its constant arguments with, for an argument
+// of a named integer type that is not constant (info.Type()), each declared constant of that type and one value
+// that is none of them; returns the set of values result ri can have (nil when anything cannot be evaluated).
+func (p *Program) helperResultValues(fi *FuncInfo, id *ast.Ident) []uint64 {
+	info := fi.Pkg.TypesInfo
+	obj := info.Uses[id]
+	if obj == nil {
+		obj = info.Defs[id]
+	}
+	if obj == nil {
+		return nil
+	}
+	var call *ast.CallExpr
+	ri, ndef := -1, 0
+	ast.Inspect(fi.Decl.Body, func(x ast.Node) bool {
+		as, ok := x.(*ast.AssignStmt)
+		if !ok {
+			return true
+		}
+		for i, l := range as.Lhs {
+			lid, isId := l.(*ast.Ident)
+			if !isId || (info.Defs[lid] != obj && info.Uses[lid] != obj) {
+				continue
+			}
+			ndef++
+			if len(as.Rhs) == 1 && len(as.Lhs) > 1 {
+				if c, isC := ast.Unparen(as.Rhs[0]).(*ast.CallExpr); isC {
+					call, ri = c, i
+				}
+			}
+		}
+		return true
+	})
+	if call == nil || ndef != 1 {
+		return nil
+	}
+	fn := calleeOf(info, call)
+	if fn == nil {
+		return nil
+	}
+	h := p.FuncOf(fn)
+	if h == nil || h.Pkg != p.Root || h.Decl.Body == nil {
+		return nil
+	}
+	sig := fn.Type().(*types.Signature)
+	if sig.Variadic() || sig.Params().Len() != len(call.Args) {
+		return nil
+	}
+	// candidate values per argument
+	cands := make([][]uint64, len(call.Args))
+	for i, a := range call.Args {
+		if k, isK := constInt(info, a); isK {
+			cands[i] = []uint64{uint64(k)}
+			continue
+		}
+		if u, isU := constUint(info, a); isU {
+			cands[i] = []uint64{u}
+			continue
+		}
+		nt, isNamed := sig.Params().At(i).Type().(*types.Named)
+		if !isNamed {
+			return nil
+		}
+		if b, isB := nt.Underlying().(*types.Basic); !isB || b.Info()&types.IsInteger == 0 {
+			return nil
+		}
+		var vals []uint64
+		maxV := uint64(0)
+		scope := nt.Obj().Pkg().Scope()
+		for _, nme := range scope.Names() {
+			if c, isC := scope.Lookup(nme).(*types.Const); isC && types.Identical(c.Type(), nt) {
+				if v, exact := constant.Int64Val(constant.ToInt(c.Val())); exact {
+					vals = append(vals, uint64(v))
+					if uint64(v) > maxV {
+						maxV = uint64(v)
+					}
+				}
+			}
+		}
+		if len(vals) == 0 || len(vals) > 64 {
+			return nil
+		}
+		cands[i] = append(vals, maxV+1)
+	}
+	set := map[uint64]bool{}
+	var rec func(i int, cur []uint64) bool
+	rec = func(i int, cur []uint64) bool {
+		if i == len(cands) {
+			se := newSymEval(p)
+			var args []sval
+			for j, v := range cur {
+				args = append(args, se.intVal(tConst(v), sig.Params().At(j).Type()))
+			}
+			vals, ok := se.evalFunc(h, args)
+			if !ok || len(se.unsup) > 0 || ri >= len(vals) || vals[ri].kind != 'i' || !vals[ri].t.isConst() {
+				return false
+			}
+			set[vals[ri].t.k] = true
+			return true
+		}
+		for _, v := range cands[i] {
+			if !rec(i+1, append(cur, v)) {
+				return false
+			}
+		}
+		return true
+	}
+	if !rec(0, nil) {
+		return nil
+	}
+	var out []uint64
+	for v := range set {
+		out = append(out, v)
+	}
+	sort.Slice(out, func(i, j int) bool { return out[i] < out[j] })
+	return out
+}
+
 // operandInterval: the values e can have at node `at` given the dominating guards.
 func (p *Program) operandInterval(g *Graph, fi *FuncInfo, f Facts, e ast.Expr) (ival, string) {
 	info := g.Info
@@ -197,6 +316,15 @@ func (p *Program) operandInterval(g *Graph, fi *FuncInfo, f Facts, e ast.Expr) (
 			}
 			return true
 		})
+	}
+	// a value handed back by a table-driven helper: the finite set of values it can return
+	if id, isId := e.(*ast.Ident); isId && uns {
+		if vals := p.helperResultValues(fi, id); len(vals) > 0 {
+			lo, hi := new(big.Int).SetUint64(vals[0]), new(big.Int).SetUint64(vals[len(vals)-1])
+			if hi.Cmp(iv.hi) <= 0 {
+				iv, why = ival{lo, hi}, fmt.Sprintf("%s is one of %v (every result of the helper it comes from)", id.Name, vals)
+			}
+		}
 	}
 	// v := T(y) with y never reassigned: v has y's values when they fit T
 	if id, isId := e.(*ast.Ident); isId && info.Uses[id] != nil && singleAssigned(info, fi.Decl.Body, info.Uses[id]) {
@@ -360,6 +488,24 @@ func c02r1(p *Program, r *Report) {
 					if k.BitLen() > 0 && new(big.Int).And(k, m).Sign() == 0 && k.BitLen()-1 <= db {
 						r.OK(c, construct, fmt.Sprintf("explicitly masked to %d bits (C02.R6 checks the width against the CQL type)", k.BitLen()-1))
 						return true
+					}
+				}
+				// the mask is a variable that a table-driven helper hands back: all its values are width masks
+				if mid, isId := ast.Unparen(stripAllConv(info, other)).(*ast.Ident); isId {
+					if vals := p.helperResultValues(fi, mid); len(vals) > 0 {
+						allMasks, maxBits := true, 0
+						for _, v := range vals {
+							if v&(v+1) != 0 {
+								allMasks = false
+							}
+							if bl := new(big.Int).SetUint64(v).BitLen(); bl > maxBits {
+								maxBits = bl
+							}
+						}
+						if allMasks && maxBits <= db {
+							r.OK(c, construct, fmt.Sprintf("masked with %s, which is one of the width masks %v (C02.R6 checks the width against the CQL type)", mid.Name, vals))
+							return true
+						}
 					}
 				}
 			}
